@@ -955,7 +955,11 @@ func f17Callback(v ssa.Value) (*ssa.Function, int) {
 			return nil, 0
 		}
 		isDel := core.CallMethod("collection.Cache", "Del")
-		if fn.Synthetic == "" && len(core.Instrs(fn, isDel)) > 0 {
+		// The function that deletes is the callback's body, whatever carries it: a source
+		// function, or the wrapper of a bound method value into which the loader's variant 2
+		// has inlined the method (parameters of a $bound wrapper are the method's, the
+		// receiver is a free variable, so idx keeps its meaning).
+		if len(core.Instrs(fn, isDel)) > 0 {
 			return fn, idx
 		}
 		// forwarders: exactly one static call into the package that receives the argument
